@@ -146,6 +146,32 @@ def search_closures(eng, closures, out):
                 out.violate("ITER-1", "search-closure-has-effects:%s" % ev.op, "the closure given to `%s` has side effects (%s); how many elements it runs on depends on hash/table order" % (ev.op, cl["effects"][0].kind), where_of(g, b), entry=eng.name)
 
 
+ORDER_SENSITIVE = ("take", "skip", "take_while", "skip_while", "map_while", "step_by", "nth", "nth_back", "last", "rev", "enumerate", "zip", "scan",
+                   "position", "rposition", "min_by", "max_by", "min_by_key", "max_by_key", "next_back", "advance_by", "array_chunks", "is_sorted", "cmp", "partial_cmp", "eq", "lt", "le", "gt", "ge")
+
+
+def hash_rooted(it):
+    """Is the iterator expression `it` (adaptors looked through) produced by a hashbrown container?"""
+    from rules_trace import iter_base
+    e = iter_base(it)
+    if isinstance(e, tuple) and e[0] == "call" and e[2] == "core::iter::IntoIterator::into_iter" and e[3]:
+        a = e[3][0]
+        e = a[1] if a[0] == "ref" else a
+    return isinstance(e, tuple) and e[0] == "call" and e[2].startswith("hashbrown::")
+
+
+def iter3(eng, out):
+    """No adaptor or consumer whose result depends on the order of elements is applied to a hash-ordered iterator."""
+    g = eng.fn
+    for (kind, b, si), ev in eng.event_index.items():
+        if kind != "iter" or ev.get("recv") is None or not hash_rooted(ev.recv):
+            continue
+        out.obl("ITER-3", "adaptor:%s" % ev.op, (eng.name, b))
+        if ev.op in ORDER_SENSITIVE:
+            out.violate("ITER-3", "order-sensitive-adaptor:%s" % ev.op, "`%s` is applied to an iterator over a hash-ordered container: which elements it keeps, skips or pairs up depends on the table order (addresses and insertion history), and so does everything done with them" % ev.op,
+                        where_of(g, b), entry=eng.name)
+
+
 def iter5(eng, out):
     """No group-sized loop or linear scan nested in a group-sized loop."""
     g = eng.fn
